@@ -33,7 +33,7 @@ PROPERTIES = {
             "PropositionTransformer: 21 requirement sources parsed by the real parser",
         ],
         not_reached=[
-            "PendingRequirement.compile.closure / DynamicRequirement.__init__.closure (veneer.executeInRequirement / executeInScenario context managers around monitor.update())",
+            "DynamicRequirement.__init__.closure (veneer.executeInScenario context manager around monitor.update()); PendingRequirement.compile.closure is under contract for C01",
             "DynamicScenario._start (turns the registered requirements into monitors) and _compileRequirements (which requirements belong to which scenario; sub-scenario nesting)",
             "grammar-level precedence of the temporal operators (scenic.gram, C10; F31)",
             "ScenicToPythonTransformer.createRequirementLike (wrapping of the transformed proposition into the veneer.require call)",
